@@ -1,3 +1,8 @@
+/-
+  K7 — facts about the spec alone (Sio/Model/ClientSpec.lean): the possible effects of one
+  transport event on the server's view (`EvShape`), the view's invariants, and the balance
+  "accepted = ended + still connected" of its notifications over whole histories.
+-/
 import Sio.Lemmas.ClientSim
 namespace Sio.Client
 
@@ -215,10 +220,10 @@ theorem spec_ev_balance {m : Mode} {v v' : View} {e : Ev} {t : List Note} (hv : 
       by_cases hq : a = n
       · subst hq; simp [cntA, cntE, hk]
       · have h1 : (Note.accepted a == Note.accepted n) = false := by simp [hq]
-        simp [cntA, cntE, hq, List.count_cons, h1]
+        simp [cntA, cntE, hq]
   | refuse a hup hn hr h1 h2 =>
     subst h1 h2
-    refine ⟨⟨hv.nodup, ?_, hv.down⟩, fun n => by simp [cntA, cntE, List.count_cons]⟩
+    refine ⟨⟨hv.nodup, ?_, hv.down⟩, fun n => by simp [cntA, cntE]⟩
     intro n' hn'
     exact hv.fresh n' (mem_dropAsk.mp hn').1
   | endLast a hup hm hn he h1 h2 =>
@@ -227,7 +232,7 @@ theorem spec_ev_balance {m : Mode} {v v' : View} {e : Ev} {t : List Note} (hv : 
     have hnil : dropNs v.acc a = [] := by simpa using he
     rw [ind_down]
     by_cases hq : a = n
-    · subst hq; simp [cntA, cntE, ind, hn, List.count_cons]
+    · subst hq; simp [cntA, cntE, ind, hn]
     · have hk : hasKey v.acc n = false := by
         cases hk : hasKey v.acc n with
         | false => rfl
@@ -250,7 +255,7 @@ theorem spec_ev_balance {m : Mode} {v v' : View} {e : Ev} {t : List Note} (hv : 
     · intro hd; rw [hup] at hd; cases hd
     · simp only [ind, hasKey_dropNs]
       by_cases hq : a = n
-      · subst hq; simp [cntA, cntE, hn, List.count_cons]
+      · subst hq; simp [cntA, cntE, hn]
       · have h1 : (Note.ended a == Note.ended n) = false := by simp [hq]
         have hne : n ≠ a := fun h => hq h.symm
         simp [cntA, cntE, List.count_cons, h1, hne]
